@@ -134,9 +134,14 @@ def run_tlc(scratch, module, cfg, *, files=(), workers=None, timeout=600, simula
     os.makedirs(scratch, exist_ok=True)
     for f in os.listdir(specs_dir):
         if f.endswith(".tla") or f.endswith(".cfg"):
-            shutil.copyfile(os.path.join(specs_dir, f), os.path.join(scratch, f))
+            dst = os.path.join(scratch, f)
+            if os.path.islink(dst) or os.path.exists(dst):
+                os.remove(dst)
+            os.symlink(os.path.join(specs_dir, f), dst)   # TLC only reads them; linking keeps shards cheap
     for src, dst in files:
         if os.path.abspath(src) != os.path.abspath(os.path.join(scratch, dst)):
+            if os.path.islink(os.path.join(scratch, dst)):
+                os.remove(os.path.join(scratch, dst))
             shutil.copyfile(src, os.path.join(scratch, dst))
     meta = os.path.join(scratch, "meta")
     shutil.rmtree(meta, ignore_errors=True)
@@ -158,12 +163,18 @@ def run_tlc(scratch, module, cfg, *, files=(), workers=None, timeout=600, simula
     cmd.append(module)
     t0 = time.time()
     outpath = os.path.join(scratch, "tlc.out")
-    with open(outpath, "w") as fo:
-        try:
-            p = subprocess.run(cmd, cwd=scratch, stdout=fo, stderr=subprocess.STDOUT,
-                               timeout=timeout)
-        except subprocess.TimeoutExpired:
-            raise Infra("TLC %s/%s timed out after %ss" % (module, cfg, timeout))
+    for attempt in (1, 2):
+        with open(outpath, "w") as fo:
+            try:
+                p = subprocess.run(cmd, cwd=scratch, stdout=fo, stderr=subprocess.STDOUT,
+                                   timeout=timeout)
+            except subprocess.TimeoutExpired:
+                raise Infra("TLC %s/%s timed out after %ss" % (module, cfg, timeout))
+        if p.returncode in (137, 143, -9, -15) and attempt == 1:
+            log("[tlc] %s/%s was killed from outside (rc %d): retrying once" % (module, cfg, p.returncode))
+            shutil.rmtree(meta, ignore_errors=True)
+            continue
+        break
     r = TlcResult()
     r.rc = p.returncode
     r.wall = time.time() - t0
